@@ -50,7 +50,7 @@ def rand_value(rng, width, labels):
         t = n if k == 0 else (f'{n}+{k}' if k > 0 else f'{n}-{-k}')
         return ('label', n, k), t, 'label'
     if r < 0.85:
-        c = rng.choice([x for x in PLAIN if x not in ', '])
+        c = rng.choice(PLAIN + [',', ',', ' ', ';', ':'])
         return ord(c), f"'{c}'", 'char'
     v = rng.randrange(0, 1 << bits)
     return v, lit(rng, v), 'plain'
@@ -109,7 +109,7 @@ class C11(core.Check):
         'string:.byte', 'string:.cstr', 'string:.asciiz', 'string:embedded', 'string:empty', 'terminator:0',
         'terminator:nonzero', 'fill:count-0', 'fill:count-1', 'fill:count-many', 'fill:value-negative', 'fill:value->255',
         'zero:count-0', 'zero:count-many', 'zerountil:below', 'zerountil:just-below', 'zerountil:at', 'zerountil:above',
-        'zero-byte-under-nonzero-image-fill']}
+        'zero-byte-under-nonzero-image-fill', 'value:char-first-in-list', 'value:char-comma']}
 
     def build(self, rng, force=None, charfirst=False, fillopt=None):
         endian = rng.choice(['big', 'little'])
@@ -137,15 +137,16 @@ class C11(core.Check):
                 w = WIDTH[d]
                 cnt = rng.randrange(1, 9)
                 vals, texts, cls = [], [], []
+                extra_cls = set()
                 if charfirst:
                     cnt = max(cnt, 2)
                 for j in range(cnt):
                     v, t, c = rand_value(rng, w, set(label_names[:3]))
                     if charfirst and j == 0:
-                        ch = rng.choice([x for x in PLAIN if x not in ', '])
+                        ch = rng.choice(PLAIN + [',', ','])
                         v, t, c = ord(ch), f"'{ch}'", 'char'
-                    while c == 'char' and j == 0 and cnt > 1 and not charfirst:
-                        v, t, c = rand_value(rng, w, set(label_names[:3]))
+                    if c == 'char' and t == "','":
+                        extra_cls.add('char-comma')
                     if c == 'char' and j == 0 and cnt > 1:
                         c = 'char-first-in-list'
                     vals.append(v)
@@ -154,7 +155,7 @@ class C11(core.Check):
                 sep = rng.choice([', ', ',', ' , ', ',  '])
                 lines.append({'k': 'data', 'width': w, 'vals': vals, 'endian': endian, 'cls': cls,
                               'text': d + rng.choice([' ', '  ', '\t']) + sep.join(texts),
-                              'tags': [f'{d}/{endian}'] + ['value:' + c for c in set(cls)], 'sigk': d})
+                              'tags': [f'{d}/{endian}'] + ['value:' + c for c in set(cls) | extra_cls], 'sigk': d})
             elif r < 0.65:
                 d = rng.choice(['.byte', '.cstr', '.asciiz', 'embedded' if emb else '.cstr'])
                 q = '"' if d == 'embedded' else rng.choice(['"', "'"])
